@@ -522,14 +522,14 @@ func genMessage(r *rand.Rand, size int) mspec {
 	var m mspec
 	m.Kind = []string{"call", "call", "notify", "result", "result", "error"}[r.Intn(6)]
 	if r.Intn(3) == 0 {
-		m.StrID = []string{"a", "req-1", "12", "é😀", "id with space", "\"q\"", "0", "null"}[r.Intn(8)]
+		m.StrID = []string{"a", "req-1", "12", "é😀", "id with space", "\"q\"", "0", "null", "a/b", "😀", "tab\there\n", "back\\slash/\u00e9\u2028"}[r.Intn(12)]
 	} else {
 		m.NumID = []int32{0, 1, 2, 7, 1 << 20, 2147483647, -1, -2147483648}[r.Intn(8)]
 		if r.Intn(2) == 0 {
 			m.NumID = r.Int31()
 		}
 	}
-	m.Method = []string{"initialize", "textDocument/didChange", "$/cancelRequest", "m", "方法", "Content-Length: 3", "a b"}[r.Intn(7)]
+	m.Method = []string{"initialize", "textDocument/didChange", "$/cancelRequest", "m", "方法", "Content-Length: 3", "a b", "x/\t😀\"q\""}[r.Intn(8)]
 	v := genValue(r, 3)
 	if size > 0 {
 		v = map[string]any{"text": filler(r, size), "v": v}
